@@ -1,4 +1,6 @@
 #!/bin/bash
+# evidence of runs on deliberately changed trees goes to a scratch directory, never to /verif/evidence
+export VERIF_EVIDENCE_DIR=/verif/out/selftest-evidence
 # usage: eval_seeded.sh <dir with patch.diff demo_test.go meta.json> [property-id]
 # 1. confirms the seeded change in a scratch worktree (build, package tests, demo fails with / passes without)
 # 2. applies it to /repo, runs the property's quick check, restores /repo
